@@ -1,0 +1,398 @@
+//go:build verif
+
+// Contracts for package semver, read by /verif/engine (govc).  Comment-only:
+// with the verif tag on, this file adds no code; with it off, it is not compiled.
+
+package semver
+
+//@ # ---------- character classes and the documented grammar ----------
+//@ spec func isdig(c int) bool = c >= 48 && c <= 57
+//@ spec func isidc(c int) bool = (c >= 65 && c <= 90) || (c >= 97 && c <= 122) || isdig(c) || c == 45
+//@ spec func alldig(s string, a int, b int) bool = forall k int :: a <= k && k < b ==> isdig(s[k])
+//@ # end of the maximal digit run starting at a
+//@ spec func digend(s string, a int) int = if a < len(s) && a >= 0 && isdig(s[a]) then digend(s, a+1) else a
+//@ # first '+' at or after a (or len(s))
+//@ spec func firstplus(s string, a int) int = if a < len(s) && a >= 0 && s[a] != '+' then firstplus(s, a+1) else a
+//@ # decimal integer without extra leading zeros in s[i:j]
+//@ spec func numok(s string, i int, j int) bool = j > i && (s[i] != '0' || j == i+1)
+//@ # s[a:e] is a series of non-empty dot-separated identifiers over [0-9A-Za-z-];
+//@ # with numeric: all-digit identifiers have no leading zeros
+//@ spec func idstart(s string, a int, p int) bool = p == a || s[p-1] == '.'
+//@ spec func idseq(s string, a int, e int, numeric bool) bool =
+//@     a < e && (forall k int :: a <= k && k < e ==> isidc(s[k]) || s[k] == '.')
+//@     && s[a] != '.' && s[e-1] != '.'
+//@     && (forall k int :: a <= k && k+1 < e ==> !(s[k] == '.' && s[k+1] == '.'))
+//@     && (numeric ==> forall p int, q int {alldig(s, p, q)} :: a <= p && p+1 < q && q <= e && idstart(s, a, p) && (q == e || s[q] == '.') && alldig(s, p, q) ==> s[p] != '0')
+//@ # A nonterminal is described by a predicate on the remaining input and the rest it leaves.
+//@ # number: decimal integer without extra leading zeros (maximal digit run)
+//@ spec func NUMS(s string) bool = len(s) > 0 && numok(s, 0, digend(s, 0))
+//@ spec func NUMT(s string) string = s[:digend(s, 0)]
+//@ spec func AFTN(s string) string = s[digend(s, 0):]
+//@ # prerelease: '-' then identifiers up to the first '+' or the end
+//@ spec func PRES(s string) bool = len(s) > 0 && s[0] == '-' && idseq(s, 1, firstplus(s, 1), true)
+//@ spec func PRET(s string) string = s[:firstplus(s, 1)]
+//@ spec func AFTP(s string) string = s[firstplus(s, 1):]
+//@ # build: '+' then identifiers up to the end
+//@ spec func BLDS(s string) bool = len(s) > 0 && s[0] == '+' && idseq(s, 1, len(s), false)
+//@ # what may follow PATCH: [-PRERELEASE][+BUILD]
+//@ spec func TAIL(s string) bool =
+//@     if len(s) > 0 && s[0] == '-' then PRES(s) && (AFTP(s) == "" || BLDS(AFTP(s))) else (s == "" || BLDS(s))
+//@ spec func S1(v string) string = v[1:]
+//@ spec func R1(v string) string = AFTN(S1(v))
+//@ spec func S2(v string) string = R1(v)[1:]
+//@ spec func R2(v string) string = AFTN(S2(v))
+//@ spec func S3(v string) string = R2(v)[1:]
+//@ spec func R3(v string) string = AFTN(S3(v))
+//@ # vMAJOR[.MINOR[.PATCH[-PRERELEASE][+BUILD]]]
+//@ spec opaque func VALID(v string) bool =
+//@     len(v) > 0 && v[0] == 'v' && NUMS(S1(v))
+//@     && (R1(v) == "" || (R1(v)[0] == '.' && NUMS(S2(v))
+//@         && (R2(v) == "" || (R2(v)[0] == '.' && NUMS(S3(v)) && TAIL(R3(v))))))
+
+//@ # first '.' at or after a (or len(s)); first identifier of a dot-separated series and what follows it
+//@ spec func firstdot(s string, a int) int = if a < len(s) && a >= 0 && s[a] != '.' then firstdot(s, a+1) else a
+//@ spec func IDENT(s string) string = s[:firstdot(s, 0)]
+//@ spec func AFTI(s string) string = s[firstdot(s, 0):]
+
+//@ lemma firstdot_bounds(s string, a int)
+//@   requires 0 <= a && a <= len(s)
+//@   ensures a <= firstdot(s, a) && firstdot(s, a) <= len(s)
+//@   ensures forall k int :: a <= k && k < firstdot(s, a) ==> s[k] != '.'
+//@   ensures firstdot(s, a) == len(s) || s[firstdot(s, a)] == '.'
+//@   induction len(s) - a
+//@   trigger firstdot(s, a)
+//@   props C04
+
+//@ lemma firstplus_bounds(s string, a int)
+//@   requires 0 <= a && a <= len(s)
+//@   ensures a <= firstplus(s, a) && firstplus(s, a) <= len(s)
+//@   ensures forall k int :: a <= k && k < firstplus(s, a) ==> s[k] != '+'
+//@   ensures firstplus(s, a) == len(s) || s[firstplus(s, a)] == '+'
+//@   induction len(s) - a
+//@   trigger firstplus(s, a)
+//@   props C04
+
+//@ lemma alldig_sub(s string, a int, b int, c int, e int)
+//@   requires 0 <= a && a <= b && b <= len(s) && 0 <= c && c <= e && e <= b - a
+//@   ensures alldig(s[a:b], c, e) == alldig(s, a + c, a + e)
+//@   trigger alldig(s[a:b], c, e)
+//@   props C04
+
+//@ lemma digend_bounds(s string, a int)
+//@   requires 0 <= a && a <= len(s)
+//@   ensures a <= digend(s, a) && digend(s, a) <= len(s)
+//@   ensures alldig(s, a, digend(s, a))
+//@   ensures digend(s, a) == len(s) || !isdig(s[digend(s, a)])
+//@   induction len(s) - a
+//@   trigger digend(s, a)
+//@   props C04
+
+//@ func isIdentChar
+//@   pure
+//@   ensures result == isidc(c)
+//@   props C04
+
+//@ func isBadNum
+//@   pure
+//@   ensures result == (alldig(v, 0, len(v)) && len(v) > 1 && v[0] == '0')
+//@   loop 0:
+//@     invariant 0 <= i && i <= len(v)
+//@     invariant alldig(v, 0, i)
+//@     decreases len(v) - i
+//@   props C04
+
+//@ func isNum
+//@   pure
+//@   ensures result == alldig(v, 0, len(v))
+//@   loop 0:
+//@     invariant 0 <= i && i <= len(v)
+//@     invariant alldig(v, 0, i)
+//@     decreases len(v) - i
+//@   props C04
+
+//@ func parseInt
+//@   pure
+//@   ensures ok <==> (len(v) > 0 && numok(v, 0, digend(v, 0)))
+//@   ensures ok ==> t == v[:digend(v, 0)] && rest == v[digend(v, 0):]
+//@   ensures !ok ==> t == "" && rest == ""
+//@   ensures 0 <= digend(v, 0) && digend(v, 0) <= len(v) && alldig(v, 0, digend(v, 0))
+//@   loop 0:
+//@     invariant 1 <= i && i <= len(v)
+//@     invariant alldig(v, 0, i)
+//@     invariant digend(v, 0) == digend(v, i)
+//@     decreases len(v) - i
+//@   props C04
+
+//@ func nextIdent
+//@   pure
+//@   ensures dx == IDENT(x) && rest == AFTI(x)
+//@   loop 0:
+//@     invariant 0 <= i && i <= len(x)
+//@     invariant firstdot(x, 0) == firstdot(x, i)
+//@     decreases len(x) - i
+//@   props C04
+
+//@ func parsePrerelease
+//@   pure
+//@   ensures ok <==> (len(v) > 0 && v[0] == '-' && idseq(v, 1, firstplus(v, 1), true))
+//@   ensures ok ==> t == v[:firstplus(v, 1)] && rest == v[firstplus(v, 1):]
+//@   ensures !ok ==> t == "" && rest == ""
+//@   uses firstplus_bounds alldig_sub
+//@   loop 0:
+//@     invariant 1 <= start && start <= i && i <= len(v) && v[0] == '-'
+//@     invariant firstplus(v, 1) == firstplus(v, i)
+//@     invariant forall k int :: 1 <= k && k < i ==> isidc(v[k]) || v[k] == '.'
+//@     invariant idstart(v, 1, start)
+//@     invariant forall k int :: start <= k && k < i ==> v[k] != '.'
+//@     invariant forall k int :: 1 <= k && k < i && v[k] == '.' ==> k > 1 && v[k-1] != '.'
+//@     invariant forall p int, q int {alldig(v, p, q)} :: 1 <= p && p+1 < q && q < start && idstart(v, 1, p) && v[q] == '.' && alldig(v, p, q) ==> v[p] != '0'
+//@     decreases len(v) - i
+//@   props C04
+
+//@ func parseBuild
+//@   pure
+//@   ensures ok <==> (len(v) > 0 && v[0] == '+' && idseq(v, 1, len(v), false))
+//@   ensures ok ==> t == v && rest == ""
+//@   ensures !ok ==> t == "" && rest == ""
+//@   loop 0:
+//@     invariant 1 <= start && start <= i && i <= len(v) && v[0] == '+'
+//@     invariant forall k int :: 1 <= k && k < i ==> isidc(v[k]) || v[k] == '.'
+//@     invariant idstart(v, 1, start)
+//@     invariant forall k int :: start <= k && k < i ==> v[k] != '.'
+//@     invariant forall k int :: 1 <= k && k < i && v[k] == '.' ==> k > 1 && v[k-1] != '.'
+//@     decreases len(v) - i
+//@   props C04
+
+//@ # ---------- parts of a valid version ----------
+//@ spec func FULL(v string) bool = R1(v) != "" && R2(v) != ""
+//@ spec func MAJ(v string) string = NUMT(S1(v))
+//@ spec func MIN(v string) string = if R1(v) == "" then "0" else NUMT(S2(v))
+//@ spec func PAT(v string) string = if FULL(v) then NUMT(S3(v)) else "0"
+//@ spec func SHORT(v string) string = if R1(v) == "" then ".0.0" else if R2(v) == "" then ".0" else ""
+//@ spec func HASPRE(v string) bool = FULL(v) && len(R3(v)) > 0 && R3(v)[0] == '-'
+//@ spec func PRE(v string) string = if HASPRE(v) then PRET(R3(v)) else ""
+//@ spec func BLD(v string) string = if HASPRE(v) then AFTP(R3(v)) else if FULL(v) then R3(v) else ""
+
+//@ func parse
+//@   pure
+//@   ensures ok <==> VALID(v)
+//@   ensures ok ==> p.major == MAJ(v) && p.minor == MIN(v) && p.patch == PAT(v) && p.short == SHORT(v)
+//@   ensures ok ==> p.prerelease == PRE(v) && p.build == BLD(v)
+//@   uses digend_bounds firstplus_bounds
+//@   props C04
+
+//@ # canonical form ("fills in any missing .MINOR or .PATCH and discards build metadata"), "" for invalid strings
+//@ spec func CANON(v string) string = if !VALID(v) then "" else if FULL(v) then v[:len(v)-len(BLD(v))] else v + SHORT(v)
+
+//@ func IsValid
+//@   pure
+//@   ensures result == VALID(v)
+//@   props C04
+
+//@ func Canonical
+//@   pure
+//@   ensures result == CANON(v)
+//@   uses digend_bounds firstplus_bounds
+//@   props C04
+
+//@ func Major
+//@   pure
+//@   ensures result == (if VALID(v) then v[:len(v)-len(R1(v))] else "")
+//@   uses digend_bounds
+//@   props C04
+
+//@ func MajorMinor
+//@   pure
+//@   ensures result == (if !VALID(v) then "" else if R1(v) == "" then v + ".0" else v[:len(v)-len(R2(v))])
+//@   uses digend_bounds
+//@   props C04
+
+//@ func Prerelease
+//@   pure
+//@   ensures result == (if VALID(v) then PRE(v) else "")
+//@   props C04
+
+//@ func Build
+//@   pure
+//@   ensures result == (if VALID(v) then BLD(v) else "")
+//@   props C04
+
+//@ # ---------- numeric value of digit strings (unbounded) ----------
+//@ # NV(s, n): value of the decimal numeral s[0:n]
+//@ spec func NV(s string, n int) int = if n <= 0 then 0 else 10 * NV(s, n-1) + (s[n-1] - 48)
+//@ spec func P10(n int) int = if n <= 0 then 1 else 10 * P10(n-1)
+//@ # canonical numeral: non-empty digits, no leading zero unless it is "0"
+//@ spec func CNUM(s string) bool = len(s) > 0 && alldig(s, 0, len(s)) && (s[0] != '0' || len(s) == 1)
+//@ spec func sgn(d int) int = if d < 0 then 0 - 1 else if d > 0 then 1 else 0
+
+//@ lemma nv_upper(s string, n int)
+//@   requires 0 <= n && n <= len(s) && alldig(s, 0, n)
+//@   ensures 0 <= NV(s, n) && NV(s, n) < P10(n)
+//@   induction n
+//@   trigger NV(s, n)
+//@   props C04
+
+//@ lemma nv_lower(s string, n int)
+//@   requires 1 <= n && n <= len(s) && alldig(s, 0, n) && s[0] != '0'
+//@   ensures NV(s, n) >= P10(n-1)
+//@   induction n
+//@   trigger NV(s, n)
+//@   props C04
+
+//@ lemma p10_mono(n int, m int)
+//@   requires 0 <= n && n <= m
+//@   ensures P10(n) <= P10(m) && P10(n) >= 1
+//@   induction m
+//@   trigger P10(n), P10(m)
+//@   props C04
+
+//@ # equal prefixes have equal values
+//@ lemma nv_prefix(x string, y string, n int)
+//@   requires 0 <= n && n <= len(x) && n <= len(y) && (forall k int :: 0 <= k && k < n ==> x[k] == y[k])
+//@   ensures NV(x, n) == NV(y, n)
+//@   induction n
+//@   trigger NV(x, n), NV(y, n)
+//@   props C04
+
+//@ # a strict inequality of prefixes persists when further digits are appended
+//@ lemma nv_extend(x string, y string, m int, n int)
+//@   requires 0 <= m && m <= n && n <= len(x) && n <= len(y) && alldig(x, 0, n) && alldig(y, 0, n) && NV(x, m) < NV(y, m)
+//@   ensures NV(x, n) < NV(y, n)
+//@   induction n - m
+//@   trigger NV(x, m), NV(y, n)
+//@   props C04
+
+//@ # N1: equal length, lexicographically smaller => numerically smaller
+//@ lemma nv_lex(x string, y string)
+//@   requires len(x) == len(y) && alldig(x, 0, len(x)) && alldig(y, 0, len(y)) && x < y
+//@   ensures NV(x, len(x)) < NV(y, len(y))
+//@   hint NV(x, firstdiff(x, y))
+//@   hint NV(y, firstdiff(x, y))
+//@   hint NV(x, firstdiff(x, y) + 1)
+//@   hint NV(y, firstdiff(x, y) + 1)
+//@   uses nv_prefix nv_extend
+//@   props C04
+
+//@ # N2: canonical numerals: shorter => numerically smaller
+//@ lemma nv_len(x string, y string)
+//@   requires CNUM(x) && CNUM(y) && len(x) < len(y)
+//@   ensures NV(x, len(x)) < NV(y, len(y))
+//@   uses nv_upper nv_lower p10_mono
+//@   props C04
+
+//@ func compareInt
+//@   pure
+//@   requires CNUM(x) && CNUM(y)
+//@   ensures result == sgn(NV(x, len(x)) - NV(y, len(y)))
+//@   uses nv_lex nv_len
+//@   props C04
+
+//@ # ---------- SemVer 2.0.0 section 11: precedence ----------
+//@ # two different identifiers: numeric below alphanumeric, numeric by value, others in ASCII order
+//@ spec func IDCMP(a string, b string) int =
+//@     if alldig(a, 0, len(a)) != alldig(b, 0, len(b)) then (if alldig(a, 0, len(a)) then 0 - 1 else 1)
+//@     else if alldig(a, 0, len(a)) then sgn(NV(a, len(a)) - NV(b, len(b)))
+//@     else (if a < b then 0 - 1 else 1)
+//@ # x, y: "" or a separator followed by dot-separated identifiers; compare identifier by identifier,
+//@ # a larger set of fields wins when all preceding identifiers are equal
+//@ spec func PCMP(x string, y string) int =
+//@     if x == "" && y == "" then 0 else if x == "" then 0 - 1 else if y == "" then 1
+//@     else if IDENT(x[1:]) != IDENT(y[1:]) then IDCMP(IDENT(x[1:]), IDENT(y[1:]))
+//@     else PCMP(AFTI(x[1:]), AFTI(y[1:]))
+//@ # a version without prerelease is above any with one
+//@ spec func PRECMP(x string, y string) int =
+//@     if x == "" && y == "" then 0 else if x == "" then 1 else if y == "" then 0 - 1 else PCMP(x, y)
+//@ # well-formed (rest of a) prerelease: "" or separator + identifiers, numeric ones without leading zeros
+//@ spec func WFS(s string) bool = s == "" || ((s[0] == '-' || s[0] == '.') && idseq(s, 1, len(s), true))
+
+//@ lemma wfs_step(s string)
+//@   requires WFS(s) && s != ""
+//@   ensures WFS(AFTI(s[1:]))
+//@   ensures len(IDENT(s[1:])) > 0
+//@   ensures alldig(IDENT(s[1:]), 0, len(IDENT(s[1:]))) ==> CNUM(IDENT(s[1:]))
+//@   ensures AFTI(s[1:]) == "" || AFTI(s[1:])[0] == '.'
+//@   ensures len(AFTI(s[1:])) < len(s)
+//@   uses firstdot_bounds alldig_sub
+//@   trigger AFTI(s[1:])
+//@   props C04
+
+//@ lemma cnum_differ(a string, b string)
+//@   requires CNUM(a) && CNUM(b) && a != b
+//@   ensures NV(a, len(a)) != NV(b, len(b))
+//@   uses nv_lex nv_len str_lt_total
+//@   props C04
+
+//@ lemma pcmp_nonzero(x string, y string)
+//@   requires WFS(x) && WFS(y) && x != y && (x == "" || y == "" || x[0] == y[0])
+//@   ensures PCMP(x, y) != 0
+//@   induction len(x)
+//@   uses wfs_step cnum_differ firstdot_bounds
+//@   trigger PCMP(x, y)
+//@   props C04
+
+//@ lemma pcmp_refl(x string)
+//@   ensures PCMP(x, x) == 0
+//@   induction len(x)
+//@   uses firstdot_bounds
+//@   trigger PCMP(x, x)
+//@   props C04
+
+//@ func comparePrerelease
+//@   pure
+//@   requires (x == "" || x[0] == '-') && (y == "" || y[0] == '-') && WFS(x) && WFS(y)
+//@   ensures result == PRECMP(x, y)
+//@   loop 0:
+//@     invariant WFS(x) && WFS(y)
+//@     invariant PCMP(old(x), old(y)) == PCMP(x, y)
+//@     decreases len(x)
+//@   uses wfs_step nv_lex nv_len str_lt_total str_lt_asym firstdot_bounds pcmp_nonzero pcmp_refl
+//@   props C04
+
+//@ # ---------- Compare ----------
+//@ spec func NCMP(a string, b string) int = sgn(NV(a, len(a)) - NV(b, len(b)))
+//@ # invalid strings are equal to each other and below every valid one; valid ones are ordered by
+//@ # (major, minor, patch) numerically, then by prerelease precedence
+//@ spec func CMP(v string, w string) int =
+//@     if !VALID(v) && !VALID(w) then 0 else if !VALID(v) then 0 - 1 else if !VALID(w) then 1
+//@     else if NCMP(MAJ(v), MAJ(w)) != 0 then NCMP(MAJ(v), MAJ(w))
+//@     else if NCMP(MIN(v), MIN(w)) != 0 then NCMP(MIN(v), MIN(w))
+//@     else if NCMP(PAT(v), PAT(w)) != 0 then NCMP(PAT(v), PAT(w))
+//@     else PRECMP(PRE(v), PRE(w))
+
+//@ lemma nums_cnum(s string)
+//@   requires NUMS(s)
+//@   ensures CNUM(NUMT(s))
+//@   uses digend_bounds alldig_sub
+//@   trigger NUMT(s)
+//@   props C04
+
+//@ lemma idseq_prefix(s string, e int, numeric bool)
+//@   requires 1 <= e && e <= len(s)
+//@   ensures idseq(s[:e], 1, e, numeric) == idseq(s, 1, e, numeric)
+//@   uses alldig_sub
+//@   trigger idseq(s[:e], 1, e, numeric)
+//@   props C04
+
+//@ lemma valid_parts(v string)
+//@   requires VALID(v)
+//@   ensures CNUM(MAJ(v)) && CNUM(MIN(v)) && CNUM(PAT(v))
+//@   ensures WFS(PRE(v)) && (PRE(v) == "" || PRE(v)[0] == '-')
+//@   uses nums_cnum idseq_prefix firstplus_bounds digend_bounds
+//@   trigger VALID(v)
+//@   props C04
+
+//@ func Compare
+//@   pure
+//@   ensures result == CMP(v, w)
+//@   uses valid_parts
+//@   props C04
+
+//@ func Max
+//@   pure
+//@   ensures result == (if CMP(CANON(v), CANON(w)) > 0 then CANON(v) else CANON(w))
+//@   props C04
+
+//@ func ByVersion.Less
+//@   requires 0 <= i && i < len(vs) && 0 <= j && j < len(vs)
+//@   ensures result == (CMP(vs[i], vs[j]) < 0 || (CMP(vs[i], vs[j]) == 0 && vs[i] < vs[j]))
+//@   props C04
